@@ -27,7 +27,7 @@ EXTRA_MODULES = {p: ["Halo.Props.Rational"] for p in ("C01", "C03", "C04", "C05"
 for _p in ("C02", "C03", "C13", "C16", "C20"):
     EXTRA_MODULES.setdefault(_p, []).append("Halo.Props.Examples")
 
-WQ, WT = (25, 60), (300, 120)        # world families: (sequences, steps per sequence) quick / thorough
+WQ, WT = (25, 60), (1000, 120)        # world families: (sequences, steps per sequence) quick / thorough
 
 # a divergence on a world step counts against the properties whose obligations that operation kind carries
 # (DESIGN §5, attribution by stage); query lines likewise
